@@ -146,6 +146,15 @@ class ApiWorld(object):
         lst = self.plugin_list()
         cur = [norm_region(d) for d in lst]
         if self.prop == "C13":
+            for d in lst:
+                want = {"RectangularRegion": {"type", "id", "x1", "y1", "x2", "y2"},
+                        "CircularRegion": {"type", "id", "cx", "cy", "r"}}.get(d.get("type"))
+                if want is not None and set(d.keys()) != want:
+                    self.fail("payload_keys", "after %s the GET response describes a region as %r" % (what, d))
+            for m in new:
+                if m[1].get("excluded_regions") != lst:
+                    self.fail("notify_payload", "after %s a notification carried %r but GET returns %r"
+                              % (what, m[1].get("excluded_regions"), lst))
             ids = [d["id"] for d in lst]
             if len(set(ids)) != len(ids):
                 self.fail("unique", "after %s region ids are not unique: %r" % (what, ids))
@@ -182,7 +191,7 @@ class ApiWorld(object):
         k = op["op"]
         self.stats["op:" + k] += 1
         if k == "event":
-            self.bus.fire(op["name"])
+            self.bus.fire(op["name"], op.get("payload"))
             self.bus.deliver_all()
         elif k == "settings":
             for key, v in op["set"].items():
